@@ -112,6 +112,26 @@ theorem take_eq_scan (frags : List Frag) (stable : Bool) (hw : WF frags) (offs :
     have : (scanAddrs frags)[o]? = some (scanAddrs frags)[o] := List.getElem?_eq_getElem hlt
     simp [scanRows_getElem? hw, addrAt, this]
 
+/-- **take_scan_eq_scan.** `take_scan` over any list of in-range row ranges (overlapping, unordered, empty
+ranges allowed) returns the scan's rows of those ranges, range after range. -/
+theorem take_scan_eq_scan (frags : List Frag) (stable : Bool) (hw : WF frags) (ranges : List (Nat × Nat))
+    (hin : ∀ r ∈ ranges, r.2 ≤ (scanRows frags stable).length) :
+    ∃ rows, takeScan frags stable ranges = .ok rows ∧
+      rows.map some = ranges.flatMap (fun r => (List.range' r.1 (r.2 - r.1)).map (fun o => (scanRows frags stable)[o]?)) := by
+  induction ranges with
+  | nil => exact ⟨[], rfl, rfl⟩
+  | cons r t ih =>
+    obtain ⟨b, hb1, hb2⟩ := ih (fun x hx => hin x (by simp [hx]))
+    obtain ⟨a, ha1, ha2⟩ := take_eq_scan frags stable hw (List.range' r.1 (r.2 - r.1)) (by
+      intro o ho
+      obtain ⟨i, hi, rfl⟩ := List.mem_range'.mp ho
+      have := hin r (by simp)
+      omega)
+    refine ⟨a ++ b, ?_, ?_⟩
+    · unfold takeScan
+      rw [ha1, hb1]
+    · rw [List.map_append, ha2, hb2, List.flatMap_cons]
+
 /-- **take_addr_eq_scan.** Take by address (`TakeBuilder::try_new_from_addresses`, and `take_rows`
 without stable row ids): for every list of addresses of live rows — any order, duplicates, across
 fragments — the result is the scan's row at each address, in request order. -/
@@ -257,5 +277,6 @@ example : (match take [fA, fB] true [3, 0, 0, 2, 1] with | .ok rows => rows.map 
 example : ∀ o ∈ [3, 0, 0, 2, 1], o < (scanRows [fA, fB] true).length := by decide
 example : (match takeRowsById [fA, fB] [1, 13, 10, 1, 999, 11] with | .ok rows => rows.map (·.k) | _ => []) = [6, 3, 0, 6] := by decide
 example : indexGet [fA, fB] 1 = some (3, 2) ∧ indexGet [fA, fB] 11 = none := by decide
+example : (match takeScan [fA, fB] true [(2, 4), (0, 1), (1, 1)] with | .ok rows => rows.map (·.k) | _ => []) = [4, 6, 0] := by decide
 
 end LanceModel.C15
